@@ -14,7 +14,7 @@ from vlib import F, Malformed, Scene, build_driver, driver_info, key_of, main, r
 ID = 'C02'
 LEVEL = 'exploration'
 RULE = ('one test character (every scalar of the BMP in the thorough tier) or a random string of 1..40 scalars mixed with '
-        'markup fragments, in each channel (plain cells, quoted string, legend declaration) x entry point (pretty, compressed, '
+        'markup fragments, in each channel (plain cells, quoted string, legend declaration; class tag and legend name: well-formedness only) x entry point (pretty, compressed, '
         'settings with the 8 include_* sets); non-trivial = distinct document carrying a markup-significant, non-ASCII or '
         'XML-illegal character')
 ASSUMPTIONS = ['expat is a conforming XML 1.0 parser',
@@ -52,6 +52,13 @@ def check_case(ctx, case):
         doc = 'x "' + payload + '" y\n'
     elif ch == 'legend':
         doc = '+-+\n# Legend:\na = {' + payload + '}\n'
+        if case.get('dup'):
+            doc = '+-+\n# Legend:\na = {fill:red}\na = {' + payload + '}\n'
+    elif ch == 'tag':
+        # a class tag inside a box: whatever part of it becomes a class name must still be representable
+        doc = '+' + '-' * 12 + '+\n| {a' + payload + '} b  |\n+' + '-' * 12 + '+\n'
+    elif ch == 'legname':
+        doc = '+-+\n# Legend:\na' + payload + ' = {fill:red}\n'
     elif ch == 'soup':
         doc = payload
     else:
@@ -87,6 +94,8 @@ def check_case(ctx, case):
                 return 'style elements: %d' % len(sc.style)
             css = nl_norm(sc.style[0].text)
             want = nl_norm('.svgbob .a{ ' + representable(payload) + ' }')
+            if case.get('dup'):
+                want = nl_norm('.svgbob .a{ fill:red }\n' + want)
             if not css.endswith('\n' + want):
                 return 'legend css read back %r, expected %r' % (css[-len(want) - 20:], want)
     return None
@@ -106,7 +115,10 @@ def single_char_cases(c, i):
     if c not in '"\\\n' and not (c == '\r'):
         out.append({'channel': 'quoted', 'payload': c, 'kw': kw_of(i)})
     if c not in '{}':
-        out.append({'channel': 'legend', 'payload': 'x:' + c + 'y', 'kw': kw_of(i + 1)})
+        out.append({'channel': 'legend', 'payload': 'x:' + c + 'y', 'kw': kw_of(i + 1), 'dup': i % 4 == 0})
+    if c not in '\n\r' and (o > 0x7e or o < 0x20 or i % 8 == 0):
+        out.append({'channel': 'tag', 'payload': c, 'kw': kw_of(i + 3)})
+        out.append({'channel': 'legname', 'payload': c, 'kw': {'entry': 3, 'flags': 7}})
     return out
 
 
@@ -145,17 +157,21 @@ def run_shard(ctx, shard):
                     return chr(c)
         n = rng.randint(1, 40) if rng.random() < 0.3 else rng.randint(1, 8)
         s = ''.join(rch() for _ in range(n))
-        ch = rng.choice(['plain', 'quoted', 'legend', 'soup'])
+        ch = rng.choice(['plain', 'quoted', 'legend', 'soup', 'tag', 'legname'])
         if ch == 'quoted':
             s = s.replace('"', '').replace('\\', '').replace('\n', '').replace('\r', '') or '<'
         elif ch == 'legend':
             s = s.replace('{', '').replace('}', '') or '&'
+        elif ch in ('tag', 'legname'):
+            s = ''.join(c for c in s if c not in '\r\n')[:8] or 'é'
         elif ch == 'plain':
             s = ''.join(c for c in s if c not in drawing and c not in '\r\n') or '&'
         else:
             # anything, several rows, drawing characters mixed in
             s = s + rng.choice(['', '\n', '\n+--+\n', '\n# Legend:\na = {' + s.replace('{', '').replace('}', '') + '}\n'])
         case = {'channel': ch, 'payload': s, 'kw': kw_of(rng.randrange(24))}
+        if ch == 'legend' and rng.random() < 0.3:
+            case['dup'] = True
         ctx.run_case(case)
         if i == 0:
             ctx.sample(case)
